@@ -100,9 +100,13 @@ class FitWorld(object):
                 self.fn = ref.make_idx_ad(self.n) if self.model_key == "idx_ad" else ref.make_indexed_model(self.n, 3 if self.model_key == "idx3" else 2)
                 self.fit = k2.IndexedFit(y, self.fn, cost_function=cost, dynamic_error_algorithm=self.dea, **kw)
             elif self.ftype == "hist":
-                self.fn = ref.normal_density
                 c = k2.HistContainer(n_bins=len(HIST_EDGES) - 1, bin_range=(HIST_EDGES[0], HIST_EDGES[-1]), bin_edges=list(HIST_EDGES), fill_data=list(y))
-                self.fit = k2.HistFit(c, self.fn, cost_function=cost, bin_evaluation=ref.normal_cdf, dynamic_error_algorithm=self.dea, **kw)
+                if self.model_key == "normal_counts":  # density=False: the model gives counts, nothing is scaled by the number of entries
+                    self.fn = ref.normal_counts
+                    self.fit = k2.HistFit(c, self.fn, cost_function=cost, bin_evaluation=ref.normal_counts_cdf, density=False, dynamic_error_algorithm=self.dea, **kw)
+                else:
+                    self.fn = ref.normal_density
+                    self.fit = k2.HistFit(c, self.fn, cost_function=cost, bin_evaluation=ref.normal_cdf, dynamic_error_algorithm=self.dea, **kw)
             elif self.ftype == "unbinned":
                 self.fn = ref.normal_density
                 self.fit = k2.UnbinnedFit(y, self.fn, cost_function=self.cost_id, **kw)
@@ -253,6 +257,9 @@ class FitWorld(object):
         if self.ftype == "indexed":
             return self.fn(*args)
         if self.ftype == "hist":
+            if self.model_key == "normal_counts":
+                cdf = ref.normal_counts_cdf(HIST_EDGES, *args)
+                return cdf[1:] - cdf[:-1]
             cdf = ref.normal_cdf(HIST_EDGES, *args)
             return (cdf[1:] - cdf[:-1]) * float(len(self._data_arrays(self.data_variant)[1]))
         return self.fn(d, *args)
@@ -351,7 +358,9 @@ class FitWorld(object):
                     return canon(f.get_result_dict())
                 if name.endswith(":none"):  # only whether the quantity is reported at all
                     return getattr(f, name[:-5]) is None
-                if name == "model":
+                if name == "model_property":  # the property called `model` as it is (for an xy fit: x and y rows)
+                    v = f.model
+                elif name == "model":
                     v = f.y_model if self.ftype == "xy" else f.model
                 else:
                     v = getattr(f, name)
